@@ -37,3 +37,33 @@ Proof.
   intros c g prefix bpt input pretext o n x Hok H C.
   destruct (remap_conserves c g prefix bpt input pretext o Hok H) as [CC _]. rewrite CC. exact C.
 Qed.
+
+(* ---- the cut counter (C11): cuts = output fragments - input contigs *)
+From Tola Require Proofs.RemapCuts.
+From Coq Require Import Lia Permutation.
+
+Lemma assemblies_cuts : forall c g prefix input rs o,
+  assemblies_with_scaffolds_fused c g prefix input rs = Ok o -> out_cuts o = b_cuts (rs_b rs).
+Proof.
+  intros c g prefix input rs o H. unfold assemblies_with_scaffolds_fused in H.
+  destruct (fuse_all c g rs) as [f0|]; cbn [bind] in H; [|discriminate].
+  match type of H with context [name_chromosomes ?a ?b ?d] => destruct (name_chromosomes a b d) as [fu|] end;
+    cbn [bind] in H; [|discriminate].
+  match type of H with context [mapM ?f ?l] => destruct (mapM f l) as [asms|] end; cbn [bind] in H; [|discriminate].
+  match type of H with context [make_stats ?a ?b ?d] => destruct (make_stats a b d) as [[[br jo] per]|] end;
+    cbn [bind] in H; [|discriminate].
+  injection H as <-. reflexivity.
+Qed.
+
+Theorem cuts_spec : forall c g prefix bpt input pretext o,
+  input_ok input ->
+  remap c g prefix bpt input pretext = Ok o ->
+  Z.of_nat (length (out_frags o)) = Z.of_nat (length (in_frags input)) + out_cuts o.
+Proof.
+  intros c g prefix bpt input pretext o Hok H. unfold remap in H.
+  destruct (remap_to_input c g prefix bpt input pretext) as [rs|] eqn:R; cbn [bind] in H; [|discriminate].
+  pose proof (Proofs.RemapCuts.cuts_spec_head c g prefix bpt input pretext rs Hok R) as C.
+  pose proof (Proofs.RemapTail.assemblies_keys _ _ _ _ _ _ H) as K.
+  apply Permutation_length in K. rewrite !map_length, app_length in K.
+  rewrite (assemblies_cuts _ _ _ _ _ _ H). lia.
+Qed.
